@@ -981,3 +981,110 @@ pub fn unused(_: &Q) -> Q {
     let _ = (qi(0), Q::one(), Q::zero().is_negative());
     Q::zero()
 }
+
+// ---------------------------------------------------------------------------------------
+// arbitrary graphs for the table / rejection checks
+// ---------------------------------------------------------------------------------------
+/// Any multigraph the quantifier of C03/C05 allows: self-loops, parallel edges, several
+/// components, arbitrary labels, externals on a strict subset / untouched by edges /
+/// duplicated, any mass pattern, D=1..6; weights from the finder, or unfiltered.
+pub fn any_graph(rng: &mut Rng, emax: usize) -> (GraphSpec, String) {
+    let ne = 1 + rng.below(emax);
+    let mut edges = match rng.below(4) {
+        0 => random_any(rng, ne, 6),
+        1 => {
+            // two components
+            let n1 = 1 + rng.below(ne);
+            let mut e1 = random_any(rng, n1, 3);
+            let e2: Vec<(u8, u8)> = random_any(rng, ne - n1, 3).into_iter().map(|(a, b)| (a + 10, b + 10)).collect();
+            e1.extend(e2);
+            e1
+        }
+        2 => {
+            let all = named_topologies();
+            let c: Vec<_> = all.into_iter().filter(|(_, e)| e.len() <= emax).collect();
+            c[rng.below(c.len())].1.clone()
+        }
+        _ => {
+            let loops = rng.below(ne.min(5) + 1);
+            let bl = rng.chance(0.6);
+            random_connected(rng, loops, ne.max(loops), bl)
+        }
+    };
+    let ne = edges.len();
+    let vs = vertices_of(&edges);
+    let mut ext: Vec<u8> = vec![];
+    let mut pool = vs.clone();
+    rng.shuffle(&mut pool);
+    let n_ext = rng.below(vs.len().min(4) + 1);
+    ext.extend(pool.iter().take(n_ext));
+    let mut desc = String::new();
+    if rng.chance(0.1) {
+        // an external vertex no edge touches
+        ext.push(77);
+        desc.push_str("+untouched_external");
+    }
+    if rng.chance(0.05) && !ext.is_empty() {
+        let d = ext[0];
+        ext.push(d);
+        desc.push_str("+duplicate_external");
+    }
+    let r = rng.f();
+    let massive: Vec<bool> = if r < 0.3 {
+        vec![false; ne]
+    } else if r < 0.5 {
+        vec![true; ne]
+    } else {
+        (0..ne).map(|_| rng.chance(0.5)).collect()
+    };
+    if rng.chance(0.5) {
+        let has77 = ext.contains(&77) && !vs.contains(&77);
+        relabel(rng, &mut edges, &mut ext);
+        let _ = has77;
+    }
+    let d = 1 + rng.below(6);
+    let mut g = GraphSpec { edges, weights: vec![1.0; ne], massive, externals: ext, d };
+    let mode = rng.below(8);
+    match mode {
+        0..=3 => {
+            let profile = [WeightProfile::Comfortable, WeightProfile::Mixed, WeightProfile::NearMarginal, WeightProfile::NonDyadic][rng.below(4)];
+            if let Some(w) = find_weights(rng, &g, profile) {
+                g.weights = w;
+                desc.push_str(&format!("+finder:{:?}", profile));
+                if rng.chance(0.35) {
+                    // cross (or touch) the boundary of the convergence region by a dyadic step
+                    let e = rng.below(ne);
+                    let k = rng.int(-12, 12) as f64 / 64.0;
+                    let nw = g.weights[e] + k;
+                    if nw > 0.0 {
+                        g.weights[e] = nw;
+                        desc.push_str("+perturbed");
+                    }
+                }
+            } else {
+                g.weights = (0..ne).map(|_| rng.int(1, 256) as f64 / 64.0).collect();
+                desc.push_str("+finder_failed:random_dyadic");
+            }
+        }
+        4 | 5 => {
+            g.weights = (0..ne).map(|_| rng.int(1, 256) as f64 / 64.0).collect();
+            desc.push_str("+random_dyadic");
+        }
+        6 => {
+            g.weights = (0..ne).map(|_| rng.range(0.05, 4.0)).collect();
+            desc.push_str("+random_real");
+        }
+        _ => {
+            // all-massive, every weight above D/2: always inside the region
+            g.massive = vec![true; ne];
+            g.weights = (0..ne).map(|_| d as f64 / 2.0 + rng.int(1, 128) as f64 / 64.0).collect();
+            desc.push_str("+all_massive_heavy");
+        }
+    }
+    (g, desc)
+}
+
+/// a signature of the right shape for any graph (cycle basis of a spanning forest)
+pub fn any_signature(rng: &mut Rng, g: &GraphSpec) -> Vec<Vec<isize>> {
+    routing(rng, g, 2)
+}
